@@ -31,6 +31,13 @@ class ParallelEvaluator(Evaluator):
         if pending:
             from pathos.multiprocessing import ProcessingPool as Pool  # pyright: ignore
 
+            # Map genotypes to phenotypes in this process: a worker only sees a copy of the individual,
+            # so a phenotype built there (and, for dynamic SGE, the genes drawn while building it)
+            # would be lost and the individual would later map to a different program than the one
+            # its fitness was computed from.
+            for ind in pending:
+                ind.get_phenotype()
+
             with Pool(len(pending)) as pool:
                 fitnesses = pool.map(mapper, pending)
             for ind, f in zip(pending, fitnesses):
